@@ -34,10 +34,18 @@ def make_wl(rng, k):
         # the resolver is also what collapses the two copies of an alignment processed in two sub-regions
         spec["long_locus"] = 1
         opts["extra"] = ["--no_secondary"]
+        if k % 16 == 12:
+            # ... and the run is killed in the second stage, right after the first chromosome was marked as processed, and resumed:
+            # the outputs of the chromosomes finished before the kill must survive the resume
+            spec["chr_order"] = 0
+            opts["force_fault"] = {"kind": "kill", "stage": "construct", "label_rx": r"_processed$", "nth": 0, "phase": "after"}
     if k is not None and k % 8 == 6:
         # read names that start with '#' (valid QNAME); the intergenic reads at 40-220 are the first records of their chromosome
         spec["hash_names"] = 1
         spec["intergenic"] = max(spec.get("n_chr", 3), 3)
+    if k is not None and k % 8 == 3:
+        # chrR: two small genes 38 kb apart, joined by one read-through read whose long intron spans the coverage valley
+        spec["long_locus"] = 4
     # chrP: >= 1024 short reads inside one coverage bin; a deep island whose last coverage valley is its last bin
     spec["pile"] = 1 if (k is not None and k % 4 == 1) or (k is None and rng.random() < 0.15) else 0
     if k is not None and (spec["pile"] or spec["long_locus"]):
@@ -51,6 +59,9 @@ def attrs(probs, spec, opts, cell, res):
     if all(re.search(r"read_assignments\.tsv: (read #\S+ is not reported|distinct read count mismatch)", q) for q in probs):
         # every problem of this run is a read whose name starts with '#'
         return {"kind": "hash-named read missing from read_assignments.tsv"}
+    if all(re.search(r"corrected_reads\.bed: identical record 2 times: chrR\t", q) for q in probs):
+        # every problem of this run is the bridging read of chrR printed twice
+        return {"kind": "read bridging two genes across a region split: two identical BED records"}
     return {"kind": re.sub(r"\br\d+\w*|\d+", "N", p)[:70]}
 
 
